@@ -478,6 +478,26 @@ func allCellValues(p *Prog, v ssa.Value) []ssa.Value {
 			}
 			return
 		}
+		// copied out of a field of another struct (a parameter object, a task descriptor): field-based flow, every
+		// value stored into that field anywhere. Fields left at their zero value by a literal are not reported; the
+		// rules using this treat zero as the harmless value.
+		var fromField *types.Var
+		if u, ok := v.(*ssa.UnOp); ok && u.Op == token.MUL {
+			if fa, ok := u.X.(*ssa.FieldAddr); ok {
+				fromField = fieldOf(fa)
+			}
+		}
+		if fx, ok := v.(*ssa.Field); ok {
+			fromField = fieldOfField(fx)
+		}
+		if fromField != nil && fromField.Pkg() != nil && strings.HasPrefix(fromField.Pkg().Path(), modPath) {
+			if sts := p.fields().stores[fromField]; len(sts) > 0 {
+				for _, st := range sts {
+					rec(st.Val, d+1)
+				}
+				return
+			}
+		}
 		out = append(out, v)
 	}
 	rec(v, 0)
